@@ -1,7 +1,6 @@
 package message
 
 import (
-	"bytes"
 	"encoding/binary"
 	"fmt"
 	"math"
@@ -443,7 +442,11 @@ func (rw *ReadWriter) Read(m *MessageRaw, isV2 bool) (Message, error) {
 		// in this latter case it must be filled with zeros to support empty-byte de-truncation
 		// and extension fields
 		if len(payload) < int(rw.sizeExtended) {
-			payload = append(payload, bytes.Repeat([]byte{0x00}, int(rw.sizeExtended)-len(payload))...)
+			// extend a copy: the payload belongs to the caller, and appending to it
+			// would overwrite whatever follows it in the same backing array
+			extended := make([]byte, rw.sizeExtended)
+			copy(extended, payload)
+			payload = extended
 		}
 	} else {
 		// in V1 buffer must fit message perfectly
